@@ -262,3 +262,8 @@ Proof.
     repeat (destruct H as [H|H]; [injection H as <- <-; destruct Hn as [Hn|Hn]; try discriminate Hn; reflexivity|]).
     contradiction.
 Qed.
+
+(* ddof reaches NumPy in both the skipna and the non-skipna function of var and std: M runs with the caller's ddof *)
+Theorem table_ddof_bound : forall f skipna ddof,
+  c15_ddof_bound f skipna = true /\ eff_ddof c15_ddof_bound f skipna ddof = ddof.
+Proof. intros [] [] ddof; split; reflexivity. Qed.
